@@ -808,7 +808,7 @@ class _ConstProp(ast.NodeTransformer):
         return n
 
 
-def _copy_propagate(fn):
+def _copy_propagate(fn, mod=None):
     """Replace uses of locals that are bound exactly once, by 'a = b' with b a Name that is never
     rebound in the function (parameters included), by b."""
     stores = {}
@@ -844,13 +844,13 @@ def _copy_propagate(fn):
             ok_alias[a] = b
     alias = ok_alias
     fn = R().visit(fn)
-    return _attr_alias_propagate(fn)
+    return _attr_alias_propagate(fn, mod)
 
 
-def _attr_alias_propagate(fn):
+def _attr_alias_propagate(fn, mod=None):
     """local = self.<attr>  (bound once)  ->  uses of the local read self.<attr> directly, provided no code of the
     module outside __init__/__post_init__ ever stores an attribute of that name (so it cannot change while the alias lives)."""
-    mod = getattr(fn, "module", None)
+    mod = mod or getattr(fn, "module", None)
     if mod is None:
         return fn
     stored = getattr(mod, "_attr_stores", None)
@@ -875,9 +875,16 @@ def _attr_alias_propagate(fn):
     alias = {}
     for st in ast.walk(fn):
         if isinstance(st, ast.Assign) and len(st.targets) == 1 and isinstance(st.targets[0], ast.Name) and isinstance(st.value, ast.Attribute) \
-                and isinstance(st.value.value, ast.Name) and st.value.value.id == "self" and "self" in params and stores.get("self", 0) == 0:
+                and "self" in params and stores.get("self", 0) == 0:
+            # self.a  /  self.a.b  /  self.a.b.c : every attribute of the chain is never stored outside __init__
+            chain, cur = [], st.value
+            while isinstance(cur, ast.Attribute):
+                chain.append(cur.attr)
+                cur = cur.value
+            if not (isinstance(cur, ast.Name) and cur.id == "self") or len(chain) > 3:
+                continue
             a = st.targets[0].id
-            if stores.get(a, 0) == 1 and a not in params and st.value.attr not in stored:
+            if stores.get(a, 0) == 1 and a not in params and not any(x in stored for x in chain):
                 alias[a] = st.value
     if not alias:
         return fn
@@ -1330,7 +1337,7 @@ def canonical_function(mod, fn, depth=3):
     new = _propagate_option_flags(new)
     local_names = _assigned_names(new)
     new = _ConstProp(_module_constants(mod), local_names).visit(new)
-    new = _copy_propagate(new)
+    new = _copy_propagate(new, mod)
     if ast.dump(new) == ast.dump(fn):
         cache[id(fn)] = (fn, fn)
         return fn
